@@ -10,6 +10,7 @@ COMMUTATIVE_BIN = {"Mul", "BitAnd", "BitOr"}
 SYMMETRIC_CALLS = {"equals"}
 
 
+CLOSURE_SRC = {}  # normalised closure term -> (HIR node, environment): needed to beta-reduce closures whose tails are Ok(..)
 TEMPLATES = None  # set by rule modules: Macro node -> template text
 INLINE = None     # set by rule modules: def path of a called free function -> its HIR fn (to look through extracted helpers), else None
 
@@ -62,6 +63,9 @@ def norm(n, env, depth=0):
         return ("un", n["op"], norm(n["e"], env, depth + 1))
     if k == "Cast":
         return ("cast", (n.get("ty") or ""), norm(n["e"], env, depth + 1))
+    if k == "Block" and n.get("inlined_result"):
+        # the body of a Result-returning helper that lib/hir.inlined_fn put in place of its call: keep its Ok(..) tails visible
+        return ("resultval", result_tail(dict(n, inlined_result=False), env, depth + 1))
     if k == "Block":
         e2 = env.child()
         for s in n["stmts"]:
@@ -138,7 +142,10 @@ def norm(n, env, depth=0):
         for i, p_ in enumerate(n.get("params", [])):
             for bn in H.pat_binds(p_):
                 e2.roles[bn] = ("cp", i)
-        return ("closure", norm(n["body"], e2, depth + 1))
+        t = ("closure", norm(n["body"], e2, depth + 1))
+        if len(CLOSURE_SRC) < 20000:
+            CLOSURE_SRC[t] = (n, env)
+        return t
     if k == "Struct":
         return ("struct", n["res"].get("def"), tuple((f["name"], norm(f["e"], env, depth + 1)) for f in n["fields"]))
     if k == "Call":
@@ -148,6 +155,18 @@ def norm(n, env, depth=0):
             # calling a function value: a closure parameter of an inlined helper (`op(a, b)`) is beta-reduced
             fv = norm(f, env, depth + 1)
             if fv[0] == "closure":
+                src = CLOSURE_SRC.get(fv)
+                if src is not None:
+                    # a closure whose tails are `Ok(v)` / Result values: keep them visible so that a `?` on the call distributes
+                    cnode, cenv = src
+                    e3 = cenv.child()
+                    for i, p_ in enumerate(cnode.get("params", [])):
+                        for bn in H.pat_binds(p_):
+                            if i < len(args):
+                                e3.roles[bn] = args[i]
+                    tail = result_tail(cnode["body"], e3, depth + 10)
+                    if contains_head(tail, "ok"):
+                        return ("resultval", tail)
                 return subst(fv[1], {("cp", i): a for i, a in enumerate(args)})
             if fv[0] == "path" and fv[1]:
                 nm_ = H.last(fv[1])
@@ -231,6 +250,8 @@ def push_try(t):
         return ("try", t)
     if t[0] == "ok":
         return t[1]
+    if t[0] == "ctor" and len(t) > 1 and t[1] == "Err":
+        return t  # `Err(e)?` is the error exit itself
     if t[0] == "if":
         return ("if", t[1], push_try(t[2]), push_try(t[3]))
     if t[0] == "match":
@@ -257,8 +278,18 @@ def pat_sig(p):
 
 
 def bind_tuple(pat, init, env):
-    """let (a, b) = (x, y) / { ...; (x, y) }"""
+    """let (a, b) = (x, y) / { ...; (x, y) } / if <known flag> { (x, y) } else { (u, v) }"""
     fe = H.final_expr(init)
+    for _ in range(4):
+        if H.kind(fe) == "If" and fe.get("else") is not None:
+            c = norm(fe["cond"], env)
+            if c == ("lit", "true"):
+                fe = H.final_expr(fe["then"])
+                continue
+            if c == ("lit", "false"):
+                fe = H.final_expr(fe["else"])
+                continue
+        break
     if H.kind(fe) == "Tup" and len(fe["es"]) == len(pat["pats"]):
         # statements of the initializer block are visible to the tuple components
         ienv = env.child()
